@@ -170,10 +170,14 @@ class LDAPMessageParsableBase(ParsableBase):
 
 @attr.s
 class LDAPExtendedRequestStartTLS(LDAPMessageParsableBase):
+    _REQUEST_NAME = b'1.3.6.1.4.1.1466.20037'
+
     @classmethod
     def _parse(cls, parsable):
         asn1_message = cls._parse_asn1(parsable)
         if asn1_message['protocolOp'].name != 'extendedReq':
+            raise InvalidType()
+        if bytes(asn1_message['protocolOp'].chosen['requestName'].native) != cls._REQUEST_NAME:
             raise InvalidType()
 
         return LDAPExtendedRequestStartTLS(), len(asn1_message.dump())
@@ -183,7 +187,7 @@ class LDAPExtendedRequestStartTLS(LDAPMessageParsableBase):
             'messageID': 1,
             'protocolOp': {
                 'extendedReq': {
-                    'requestName': b'1.3.6.1.4.1.1466.20037'
+                    'requestName': self._REQUEST_NAME
                 }
             }
         }).dump()
